@@ -160,7 +160,22 @@ fn test_program_alloc(p: &Program, cx: &mut Cx) -> CaseResult {
             let _ = handles::run(&[Op::New(0, Payload::Static(i)), Op::Query(0, 0, 0)], None);
         }
     });
-    match handles::run(&ops, Some(blocks)) {
+    // every other program runs with its heap blocks placed at 8 mod 16 (a legal placement
+    // that glibc never produces): alignment assumptions in the tagged pointer show up as wrong
+    // answers from live handles
+    let shift = crate::engine::fingerprint(p) & 1 == 1;
+    cx.class_if(shift, "heap blocks placed at 8 mod 16");
+    struct Restore(bool);
+    impl Drop for Restore {
+        fn drop(&mut self) {
+            crate::heap::set_shift(self.0);
+        }
+    }
+    let result = {
+        let _restore = Restore(crate::heap::set_shift(shift));
+        handles::run(&ops, Some(blocks))
+    };
+    match result {
         Ok(stats) => {
             classify(p, &stats, cx);
             Ok(())
@@ -204,8 +219,8 @@ pub fn property() -> Property {
         ],
         checks: vec![
             Box::new(Sweep { name: "c20.fixed_offsets", run: run_offsets, replay: replay_offset }),
-            Box::new(Prop { name: "c20.programs_alloc", quick: 300_000, thorough: 10_000_000, strategy: strat_alloc, test: test_program_alloc }),
-            Box::new(Prop { name: "c20.programs_threads", quick: 40_000, thorough: 1_000_000, strategy: strat_threads, test: test_program_threads }),
+            Box::new(Prop { name: "c20.programs_alloc", quick: 1_200_000, thorough: 10_000_000, strategy: strat_alloc, test: test_program_alloc }),
+            Box::new(Prop { name: "c20.programs_threads", quick: 120_000, thorough: 1_000_000, strategy: strat_threads, test: test_program_threads }),
         ],
         floors: |rec| {
             rec.floor("c20.programs_alloc:nonlast-drop-then-query", "c20.programs_alloc:cases", 0.15);
